@@ -1,8 +1,8 @@
 (** Extraction of the executable model for the correspondence check.
     Only the directives of ExtrOcamlBasic are used (bool, option, unit, prod, list, sumbool,
     sumor); N, Z, positive, nat stay the extracted Coq datatypes; no Extract Constant. *)
-From TB Require Import Base LayoutModel Decimal BencodeModel.
+From TB Require Import Base LayoutModel Decimal BencodeModel Utf8 Sha1 TorrentModel.
 From Coq Require Import Extraction ExtrOcamlBasic.
 Extraction Language OCaml.
 Extraction "extracted/model.ml" layout layout_single layout_multi hash_count_ok
-  decode.
+  decode load sha1 hexdigest utf8_valid.
